@@ -374,6 +374,18 @@ def handle (line : String) : String :=
           if all.isEmpty then "OK" else String.intercalate " ; " all
         | _ => "SPEC C01:no-result(" ++ goRes ++ ")"
       | _, _ => "BAD args"
+    | ["zip", _hx] =>
+      match goRes.splitOn " " with
+      | [chain, names] =>
+        if names == "!" then "SKIP not-a-readable-zip" else
+        let ns : List Bytes := if names == "~" then [] else (names.splitOn ",").filterMap unhex
+        let ch : List (Bytes × Bytes) := (chain.splitOn ",").filterMap fun e =>
+          match e.splitOn "|" with
+          | [m, x] => (unhex m).bind fun mb => (unhex x).map fun xb => (mb, xb)
+          | _ => none
+        let sp := Spec.zipSpec ch ns
+        if sp == "" then "OK" else sp
+      | _ => "SPEC C01:no-result(" ++ goRes ++ ")"
     | ["treeeq"] =>
       let m := String.intercalate " " (dumpTree Gen.builtin)
       if m == goRes then "OK" else s!"DIFF tree model={m}"
